@@ -224,6 +224,7 @@ def evsOf (ws : List String) : List FlushSpec.Ev :=
       if opOf fn == "add" then (if toInt a > 0 then [.submitted (toInt a).toNat] else if toInt a < 0 then [.skipped (-(toInt a)).toNat] else []) else []
   | ["K", _, _, "sendmsg", _, n, _] => if toInt n > 0 then [.accepted (toInt n).toNat] else []
   | ["G", "wtimer", "fire", "true"] => [.fired]
+  | ["G", "flusher", "select-forced", c, also] => if c == "case=wtimer" then [.tickTaken (also == "also-ready=wr")] else []
   | ["S", _, _, "closing", fn, _, _, r] => if opOf fn == "cas" && r == "1" then [.closed] else []
   | "G" :: who :: "panic-out" :: _ => [.panic who]
   | _ => []
